@@ -85,6 +85,10 @@ RUNTIME_C12 = {
     ],
 }
 PROPS["C05"] = {
+    "bounded_checks": [
+        {"name": "layout", "searcher": "layout", "clause": "compile-time half as a whole (the part no contract composes): after a hot swap to the same program minus one output-neutral stateful call, the cells that remain continue from their values; stateful calls inside if / match branches", "bound": "6 hand-written program pairs + 9 branch / match programs, each run in a child process on the real VM"},
+        {"name": "exchange", "searcher": "exchange", "clause": "last sentence of C05 seen through the outputs: VM and WASM agree on programs that need many state exchange buffers, and on closures with own state that call other closures", "bound": "14 generated programs x 4 samples on both real back ends"},
+    ],
     "verus_units": ["state_tree", "delay_history", "wasm_state", "mirgen_state", "backend_state", "vm_storage"],
     "replay": "layout",
     "replay_units": ["mirgen_state"],
@@ -117,6 +121,9 @@ PROPS["C05"] = {
                          "everything of vm.rs / wasm.rs that is not cut (Machine::execute, wasmtime plumbing)"],
 }
 PROPS["C12"] = {
+    "bounded_checks": [
+        {"name": "boxed", "searcher": "boxed", "clause": "steady state of live heap objects for programs that build boxed user-sum values per sample (the composition of compiler-inserted clone / release with the VM walkers)", "bound": "11 programs, 64 against 128 samples on the real VM"},
+    ],
     "verus_units": ["heap", "usersum", "closures", "upvalues", "mirgen_rc"],
     "replay": "boxed",
     "replay_units": ["usersum"],
@@ -150,6 +157,10 @@ PROPS["C12"] = {
 }
 
 PROPS["C11"] = {
+    "bounded_checks": [
+        {"name": "schedvm", "searcher": "schedvm", "clause": "every task runs exactly once at the sample equal to its time, before dsp -- whole programs on the real VM with the real offline driver, rendered in one block and in blocks of 2 and 1 samples", "bound": "33 generated scheduler programs x up to 12 samples"},
+        {"name": "sched", "searcher": "sched", "clause": "the same for the WASM scheduler handle driven as on_sample does", "bound": "1 434 task multisets of up to 4 tasks"},
+    ],
     "verus_units": ["scheduler", "dsp_tick"],
     "replay_by_unit": {"dsp_tick": ["schedvm", "sched"]},
     "replay": ["sched", "schedvm"],
@@ -188,6 +199,10 @@ PROPS["C11"] = {
 }
 
 PROPS["C20"] = {
+    "bounded_checks": [
+        {"name": "ffi", "searcher": "ffi_serde", "clause": "values through to_ffi_value / to_value AND the real bincode wrappers (covers the assumed wire model)", "bound": "11 358 generated values of depth <= 2"},
+        {"name": "types", "searcher": "type_serde", "clause": "types and interpreter values through their hand-written serde pairs and real bincode (covers the assumed serde data model)", "bound": "32 types incl. empty aggregates + the value corpus above"},
+    ],
     "verus_units": ["ffi_serde", "serde_enums"],
     "replay": "ffi_serde",
     "replay_by_unit": {"serde_enums": ["type_serde"]},
@@ -215,6 +230,10 @@ PROPS["C20"] = {
 }
 
 PROPS["C13"] = {
+    "bounded_checks": [
+        {"name": "parser", "searcher": "parser", "clause": "tiling + trivia attachment on whole strings through the real tokenize / preparse (covers the assumed lexer contract)", "bound": "all strings up to length 5 over a 12-symbol alphabet incl. multi-byte characters, BOM, CR/LF (346 200 strings)"},
+        {"name": "cst", "searcher": "cst", "clause": "the concrete syntax tree contains every non-trivia token exactly once in order (covers what partial correctness of the parser unit leaves: termination on these inputs)", "bound": "73 653 token strings"},
+    ],
     "verus_units": ["parser_tokens", "preparse", "cst_parser"],
     "replay": ["parser", "cst"],
     "frames": [
@@ -253,6 +272,9 @@ PROPS["C13"] = {
 }
 
 PROPS["C17"] = {
+    "bounded_checks": [
+        {"name": "privacy", "searcher": "privacy", "clause": "whole-pipeline privacy / resolution on programs with nested modules, use, multi-import, wildcard import, re-export", "bound": "29 hand-written programs with the expected accept / reject verdict"},
+    ],
     "verus_units": ["resolve_names", "use_tables", "resolve_walk"],
     "replay": "privacy",
     "floor": {"obligations": 34},
